@@ -1,12 +1,11 @@
 package artifact
 
 import (
+	"bytes"
 	"encoding/json"
 	"fmt"
 	"sort"
 	"strings"
-
-	"gopkg.in/yaml.v2"
 
 	"github.com/kevin-hanselman/dud/src/fsutil"
 )
@@ -41,22 +40,25 @@ type oldArtifact struct {
 // UnmarshalJSON enables backwards-compatibility with the original Artifact
 // struct, which did not have struct tags for custom JSON serialization.
 func (a *Artifact) UnmarshalJSON(b []byte) error {
-	// First, we try to unmarshal an Artifact using YAML in "strict" mode, which
-	// will error-out if any extra fields are found (e.g. the old "IsDir" field
-	// instead of "is-dir"). (JSON is valid YAML, so unmarshalling from YAML
-	// when the underlying encoding is JSON is perfectly safe.) If
-	// unmarshalling from YAML succeeds, the resulting Artifact is already
-	// using the latest schema and we can exit.
-	if err := yaml.UnmarshalStrict(b, a); err == nil {
+	// First, we try to unmarshal an Artifact using the latest schema in
+	// "strict" mode, which will error-out if any extra fields are found (e.g.
+	// the old "IsDir" field instead of "is-dir"). If that succeeds, the
+	// resulting Artifact is already using the latest schema and we can exit.
+	// (This used to go through a strict YAML parser, but YAML rejects or
+	// rewrites some characters that are perfectly legal in JSON strings and
+	// in file names, e.g. DEL, C1 control characters and U+0085.)
+	type newArtifact Artifact // drops the UnmarshalJSON method
+	var latest newArtifact
+	decoder := json.NewDecoder(bytes.NewReader(b))
+	decoder.DisallowUnknownFields()
+	if err := decoder.Decode(&latest); err == nil {
+		*a = Artifact(latest)
 		return nil
 	}
-	// If unmarshalling from YAML failed, chances are the underlying data is
+	// If strict unmarshalling failed, chances are the underlying data is
 	// using the old schema, so try to unmarshal it. If we still get an error,
 	// fail with that error; otherwise, copy the data from the old schema to
 	// the Artifact and exit.
-	// TODO: Technically, yaml.UnmarshalStrict and yaml.Unmarshal should both work
-	// here, but I get spurious "field X not found" errors. oldArtifact not
-	// being exported is not the issue. Need to investigate.
 	var old oldArtifact
 	if err := json.Unmarshal(b, &old); err != nil {
 		return err
